@@ -97,6 +97,12 @@ def gen_args(rng, f, malformed_rate=0.15):
                 vals[p] = coords6(rng, rows, cols, slices)
             else:
                 vals[p] = tuple(rng.randint(0, 5) for _ in range(6))
+        elif t == 'bmask':
+            sh = (rows, cols, slices)
+            n = rng.randint(0, max(1, rows * cols * slices // 3))
+            vals[p] = (sh, sorted({(rng.randrange(rows), rng.randrange(cols), rng.randrange(slices)) for _ in range(n)}))
+        elif p == 'drop_value':
+            vals[p] = Fr(rng.choice([0, 0, -3, -7, 5]))
         elif t == 'hdr':
             vals[p] = (rng.choice([Fr(7, 10), Fr(1, 2), Fr(1), dyadic(rng, 0, 2, 4) + Fr(1, 16)]),
                        rng.choice([Fr(2, 5), Fr(1, 2), Fr(3, 2), dyadic(rng, 0, 2, 4) + Fr(1, 16)]),
